@@ -243,6 +243,18 @@ static void mutate_and_decode(int which, const unsigned char *text, size_t tl, s
     memcpy(m, text, tl); m[tl] = '='; RUN(m, tl + 1); m[tl + 1] = '='; RUN(m, tl + 2);
 #undef RUN
 }
+/* (d) an encoded field followed by further data that the length argument covers (how a parser of '$'-separated fields calls the decoders):
+ * valid encoding + stopper + tail of 0..24 more characters, tail made of alphabet characters, of stoppers, or mixed; capacities exact / +1 / -1 / generous */
+static void field_with_tail(int which, const unsigned char *text, size_t tl, size_t binlen)
+{
+    static const unsigned char STOP[5] = { '$', ',', 0x00, '=', '*' }; unsigned char m[260]; int s, k, kind, ig, e, ci;
+    size_t caps[4] = { binlen, binlen + 1, binlen ? binlen - 1 : 0, binlen + 40 };
+    for (s = 0; s < 5; s++) for (kind = 0; kind < 3; kind++) for (k = 0; k <= 24; k += (thorough || k < 10 ? 1 : 7)) {
+        int i; memcpy(m, text, tl); m[tl] = STOP[s];
+        for (i = 0; i < k; i++) m[tl + 1 + i] = kind == 0 ? (which < 4 ? "QUJD"[i & 3] : "4a"[i & 1]) : kind == 1 ? '$' : (i % 5 == 4 ? '$' : 'A' + (i % 6));
+        for (ig = 0; ig < 4; ig++) if (thorough || ig != 1) for (e = 0; e < 2; e++) for (ci = 0; ci < 4; ci++) dec_case(which, m, tl + 1 + (size_t) k, ig, caps[ci], e);
+    }
+}
 static void do_roundtrip(long L)
 {
     size_t len = (size_t) L; unsigned char bin[80]; char text[200]; int p, v;
@@ -250,10 +262,10 @@ static void do_roundtrip(long L)
         vf_pat(bin, len, p, 21 + len);
         enc_check(bin, len);
         if (p == PAT_Z || p == PAT_F || p == PAT_R1 || thorough) {
-            for (v = 0; v < 4; v++) { size_t tl = ref_b64enc(text, bin, len, VARIANTS[v]); mutate_and_decode(v, (unsigned char *) text, tl, len); }
+            for (v = 0; v < 4; v++) { size_t tl = ref_b64enc(text, bin, len, VARIANTS[v]); mutate_and_decode(v, (unsigned char *) text, tl, len); if (len <= 48) field_with_tail(v, (unsigned char *) text, tl, len); }
             { size_t i; static const char hx[] = "0123456789abcdef", HX[] = "0123456789ABCDEF";
               for (i = 0; i < len; i++) { text[2 * i] = (i & 1 ? HX : hx)[bin[i] >> 4]; text[2 * i + 1] = hx[bin[i] & 15]; }
-              mutate_and_decode(4, (unsigned char *) text, 2 * len, len); }
+              mutate_and_decode(4, (unsigned char *) text, 2 * len, len); if (len <= 48) field_with_tail(4, (unsigned char *) text, 2 * len, len); }
         }
     }
 }
